@@ -190,6 +190,15 @@ def check(ctx):
             G(pr, lang, "defaults", {}, ws_family, None, 1)
             for bn, b in sp_bases.items():
                 G(pr, lang, bn, b, None, None, 0)
+    # (e'') line comments whose last visible character is a backslash followed by blanks: not a continuation as long as the blank
+    #       stays; after code, after a #define body, and a genuine continuation for contrast
+    bs = (b"int a = 1; // scratch dir is C:\\tmp\\ \nint b = 2;\n#define LOG(x) emit(x) // keep the trailing \\\t\nint after_define;\n"
+          b"int c = 3; // two blanks \\  \nint d = 4;\n// a real continuation \\\nint swallowed_by_the_comment;\nint e = 5;\n")
+    for lang in ("C", "CPP"):
+        pr = ("decl:cmt-backslash", bs, {"ctx": "decl"})
+        G(pr, lang, "defaults", {}, ws_family, None, 1)
+        for bn, b in sp_bases.items():
+            G(pr, lang, bn, b, None, None, 0)
     # profiles (whitespace projection) on everything small
     for pn, p in P.items():
         if pn == "defaults":
